@@ -1,35 +1,35 @@
 /* VERIF-UNIT
 {
- "name": "ea_sequence_B",
+ "name": "ea_full_list_B3",
  "props": ["C01", "C02"],
- "level": "B(3 ops, capacity 1)",
+ "level": "B(3)",
  "tier": "wip",
- "harness": "h_ea_sequence",
+ "harness": "h_ea_full",
  "includes": ["e2fsck", "lib/support"],
- "defines": ["EXT2_CUSTOM_MEMORY_ROUTINES", "EA_EXACT_LIBC"],
+ "defines": ["EXT2_CUSTOM_MEMORY_ROUTINES", "EA_EXACT_LIBC", "EA_SCEN_SHRINK"],
  "unwind": 6,
- "unwind_reason": "BOUNDED stand-in: a container created with capacity 1 and 3 arbitrary operations: at most 3 entries, so the binary search probes at most 2 times, the collapse loop, the entry-wise memmove and the harness's scans run at most 5 times; unwinding assertions on",
- "functions": ["e2fsck/ea_refcount.c:ea_refcount_create", "e2fsck/ea_refcount.c:get_refcount_el", "e2fsck/ea_refcount.c:insert_refcount_el", "e2fsck/ea_refcount.c:refcount_collapse", "e2fsck/ea_refcount.c:ea_refcount_increment", "e2fsck/ea_refcount.c:ea_refcount_decrement", "e2fsck/ea_refcount.c:ea_refcount_store", "e2fsck/ea_refcount.c:ea_refcount_fetch"],
- "assumes": ["bounded: exactly 3 operations (each any of increment / decrement / store / fetch, arbitrary 64-bit keys and values) on a container created by the real ea_refcount_create with capacity 1 — this reaches the paths 'full list, collapse makes room, retry' and 'full list, collapse drops nothing, realloc + 100'",
-	     "everything is the real code (no callee contract, no ghost statement: the anchors expand to nothing); realloc is CBMC's libc model (may fail), memmove an exact entry-wise copy, calloc for ext2fs_get_memzero",
-	     "well_formed is ESTABLISHED by the code here (start: create), not assumed; it is checked after every operation by a linear scan"],
+ "unwind_reason": "BOUNDED stand-in: a FULL list (count == size) of 1..3 entries: the binary search probes at most 2 times, the 'goto retry' loop runs at most twice, the collapse loop, the entry-wise realloc copy / memmove and the harness's scans run at most 4 times; unwinding assertions on",
+ "functions": ["e2fsck/ea_refcount.c:get_refcount_el", "e2fsck/ea_refcount.c:insert_refcount_el", "e2fsck/ea_refcount.c:refcount_collapse", "e2fsck/ea_refcount.c:ea_refcount_increment", "e2fsck/ea_refcount.c:ea_refcount_store"],
+ "assumes": ["bounded: a full list (count == size) of 1..3 entries with strictly ascending keys (assumed for ALL pairs), arbitrary counts of which at least one is zero (scenario 'collapse makes room'; the resize is then unreachable: obligation), arbitrary cursor; ONE operation (increment or store, arbitrary key and value)",
+	     "everything is the real code (no callee contract, no ghost statement: the anchors expand to nothing); memmove = exact entry-wise copy"],
  "native": false
 }
 */
 /*
- * e2fsck/ea_refcount.c — integration, bounded: the container against a counter model.
+ * e2fsck/ea_refcount.c — the FULL-list paths of get_refcount_el with all of the real code, bounded.
  *
- * For an arbitrary ghost key K the harness keeps the model m = view(K) (a plain counter) and replays what the map
- * semantics of the four operations says (ea_ops.c); after every operation: the error code and the reported value agree
- * with the model, the list is well-formed (count <= size, ALL adjacent keys ascending) and the view of K computed by a
- * linear scan equals m.  In particular a zero-valued entry and an absent key are indistinguishable, before and after
- * refcount_collapse removes the former.
+ * Complements the unbounded units of ea_ops.c, which cover count < size and "count == size, nothing to drop", and use
+ * the contract of refcount_collapse: here the scenario "count == size and refcount_collapse drops an entry, the search is
+ * retried" runs as one piece.  For an arbitrary ghost key K: the view computed by a linear scan changes as the map
+ * semantics says, ALL adjacent keys stay ascending, count <= size.
  */
 #define EA_IN_DECLARED
-#define SEQ_N 3
+#define FL_N 3u
 struct in_ea {
-	struct { unsigned char kind; unsigned long long key, val; } op[SEQ_N];
-	unsigned long long k;
+	unsigned long long count, cursor;
+	unsigned long long keys[FL_N], vals[FL_N];
+	unsigned long long a, v, k;
+	unsigned char kind;
 };
 struct in_ea IN;
 #include "verif.h"
@@ -42,79 +42,64 @@ struct in_ea IN;
 #define EA_OWN_COLLAPSE_CONTRACT
 #include "ea_common.h"
 
-#define SEQ_MAXCOUNT 4u
+#define FL_MAXCOUNT (FL_N + 1)
 
-static void check_wf_and_view(ext2_refcount_t rc, unsigned long long K, unsigned long long m)
+static unsigned long long scan_view(unsigned long long key)
 {
 	unsigned long long x, v = 0;
 
-	CHECK(rc->list != 0 && rc->count <= rc->size && rc->count <= SEQ_N, "count <= size, at most one entry per operation");
-	for (x = 0; x < SEQ_MAXCOUNT; x++) {
-		if (x + 1 < rc->count)
-			CHECK(rc->list[x].ea_key < rc->list[x + 1].ea_key, "keys strictly ascending");
-		if (x < rc->count && rc->list[x].ea_key == K)
-			v = rc->list[x].ea_value;
-	}
-	CHECK(v == m, "view of the ghost key equals the counter model");
+	for (x = 0; x < FL_MAXCOUNT; x++)
+		if (x < RC.count && RC.list[x].ea_key == key)
+			v = RC.list[x].ea_value;
+	return v;
 }
 
-void h_ea_sequence(void)
+void h_ea_full(void)
 {
-	ext2_refcount_t rc = 0;
-	unsigned long long K, m = 0, out;
+	unsigned long long x, n, m, out = 0, zeros = 0;
 	errcode_t r;
-	unsigned n, collapsed_path = 0;
 
 	LOAD_IN();
-	K = IN.k;
-	r = ea_refcount_create(1, &rc);
-	ASSUME(r == 0);
-	for (n = 0; n < SEQ_N; n++) {
-		unsigned long long key = IN.op[n].key, val = IN.op[n].val;
-
-		out = 0;
-		switch (IN.op[n].kind & 3) {
-		case 0:
-			r = ea_refcount_increment(rc, key, &out);
-			CHECK(r == 0 || r == EXT2_ET_NO_MEMORY, "increment: ok or ENOMEM");
-			if (r == 0 && key == K) {
-				m = m + 1;
-				CHECK(out == m, "increment reports the new count");
-			}
-			break;
-		case 1:
-			r = ea_refcount_decrement(rc, key, &out);
-			if (key == K) {
-				CHECK((r != 0) == (m == 0), "decrement fails exactly on count 0");
-				if (r == 0) {
-					m = m - 1;
-					CHECK(out == m, "decrement reports the new count");
-				}
-			}
-			CHECK(r == 0 || r == EXT2_ET_INVALID_ARGUMENT, "decrement: ok or EINVAL");
-			break;
-		case 2:
-			r = ea_refcount_store(rc, key, val);
-			CHECK(r == 0 || (r == EXT2_ET_NO_MEMORY && val != 0), "store: ok, or ENOMEM for a non-zero value");
-			if (r == 0 && key == K)
-				m = val;
-			break;
-		default:
-			r = ea_refcount_fetch(rc, key, &out);
-			CHECK(r == 0, "fetch: ok");
-			if (key == K)
-				CHECK(out == m, "fetch reports the count");
-			break;
+	n = IN.count;
+	ASSUME(n >= 1 && n <= FL_N);
+	RC.list = malloc(FL_N * sizeof(struct ea_refcount_el));	/* constant-size object; size says n */
+	ASSUME(RC.list != 0);
+	for (x = 0; x < FL_N; x++)
+		if (x < n) {
+			RC.list[x].ea_key = IN.keys[x];
+			RC.list[x].ea_value = IN.vals[x];
+			if (IN.vals[x] == 0)
+				zeros++;
+			ASSUME(x + 1 >= n || IN.keys[x] < IN.keys[x + 1]);
 		}
-		check_wf_and_view(rc, K, m);
+	RC.count = n;
+	RC.size = n;
+	RC.cursor = IN.cursor;
+	m = scan_view(IN.k);
+	ASSUME(zeros > 0);	/* scenario 'shrink'; 'nothing to drop' is ea_refcount_*_grow (unbounded) */
+
+	if (IN.kind & 1) {
+		r = ea_refcount_increment(&RC, IN.a, &out);
+		CHECK(r == 0 || r == EXT2_ET_NO_MEMORY, "increment: ok or ENOMEM");
+		if (r == 0 && IN.a == IN.k) {
+			m = m + 1;
+			CHECK(out == m, "increment reports the new count");
+		}
+	} else {
+		r = ea_refcount_store(&RC, IN.a, IN.v);
+		CHECK(r == 0 || (r == EXT2_ET_NO_MEMORY && IN.v != 0), "store: ok, or ENOMEM for a non-zero value");
+		if (r == 0 && IN.a == IN.k)
+			m = IN.v;
 	}
-	/* situations (over the inputs): a full list with a zero-valued entry that the 3rd operation has to get rid of; growth */
-	if ((IN.op[0].kind & 3) == 2 && (IN.op[1].kind & 3) == 1 && (IN.op[2].kind & 3) == 0 &&
-	    IN.op[0].key == 20 && IN.op[0].val == 1 && IN.op[1].key == 20 && IN.op[2].key == 15)
-		REACH("full list, zero entry dropped, retry, insert");
-	if ((IN.op[0].kind & 3) == 0 && (IN.op[1].kind & 3) == 0 && (IN.op[2].kind & 3) == 0 &&
-	    IN.op[0].key == 30 && IN.op[1].key == 10 && IN.op[2].key == 20 && rc->size == 101)
-		REACH("full list, nothing to drop, grown by 100, insert in the middle");
+	CHECK(RC.list != 0 && RC.count <= RC.size && RC.count <= n + 1, "count <= size, at most one entry added");
+	for (x = 0; x + 1 < FL_MAXCOUNT; x++)
+		CHECK(x + 1 >= RC.count || RC.list[x].ea_key < RC.list[x + 1].ea_key, "all adjacent keys ascending");
+	CHECK(scan_view(IN.k) == m, "view of the ghost key: changed as the map semantics says (linear scan)");
+	if (zeros > 0 && n == 3 && IN.vals[0] == 0 && IN.a > IN.keys[1] && IN.a < IN.keys[2])
+		REACH("zero entry dropped, retry, insert in the middle");
+	if (zeros > 0 && n == 2 && IN.a > IN.keys[1])
+		REACH("zero entry dropped, append");
+	if (n == 3 && IN.vals[1] == 0 && IN.a == IN.keys[2] && IN.cursor == 0)
+		REACH("zero entry dropped, retry, key found");
 	REACH("end");
-	ea_refcount_free(rc);
 }
